@@ -6,7 +6,7 @@ import tempfile
 ID = 'C34'
 LEVEL = 'exploration'
 QUICK_S = 45
-THOROUGH_S = 600
+THOROUGH_S = 300
 TECHNIQUE = ('runtime monitoring: _pos_crossref_list and _pos_rule_dict of models loaded with textx_tools_support compared with '
              'the layout ground truth kept by the harness printer (offsets of every reference text and every object); '
              'postponement schedules imposed by a provider wrapper')
@@ -291,7 +291,7 @@ def classify(got, exp):
 
 
 def run(ctx):
-    for i in ctx.indices(4000 if ctx.tier == 'quick' else 25000, 'random'):
+    for i in ctx.indices(4000 if ctx.tier == 'quick' else 10 ** 7, 'random'):
         one(ctx, i)
 
 
